@@ -32,7 +32,7 @@ class L2:
 
     def scalar(self, path, name):
         k = self.dom.input(name, 0, L - 1)
-        oid = self.ex.new_obj(path, self.prog.T(E + "Scalar"), name=name, init=[Abs(k, False, "mont")])
+        oid = self.ex.new_obj(path, self.prog.T(E + "Scalar"), name=name, init=[scalarmode.SAbs(k, False, "mont")])
         return X.Ptr(oid), k
 
     def point(self, path, gen, name=""):
